@@ -1,6 +1,12 @@
 (* Suite C13fd: C13 on scripted REAL descriptors (harness/src/suites/c13.rs, harness/src/fdscript.rs).
    case:  mode kind [content] pos (opcode [arg] [script])*
             kind 5 regular File            6 UnixStream (byte queue)       7 pipe (OwnedFd)
+                 16 TcpStream over a 127.0.0.1 loopback pair (byte queue; the peer has shut its sending side down)
+                 17 TcpStream whose peer stays OPEN and has sent [content] only: ONE read, which must return what is
+                    available (a read that waits for the buffer to fill gets the missing bytes from a helper after 1 s
+                    and then shows a wrong count)
+                 18 std::io::Stdout, fd 1 redirected onto a pipe for the duration of the call (twin: File on a pipe):
+                    one write(2) per write_volatile, its count returned, short writes reported as short
                  13 File, 14 UnixStream as BorrowedFd, 15 pipe: the same descriptors driven through
                     VolatileSlice::{read_volatile_from, read_exact_volatile_from, write_volatile_to,
                     write_all_volatile_to}(0, fd, len) (volatile_memory.rs:799-831; the up-to forms wrap the call
@@ -88,7 +94,17 @@ Definition kind_fd (n : N) : option (skind * bool) :=
   match n with
   | 5 => Some (KFile, false) | 6 | 7 => Some (KQueue, false)
   | 13 => Some (KFile, true) | 14 | 15 => Some (KQueue, true)
+  | 16 | 17 | 18 => Some (KQueue, false)
   | _ => None
+  end.
+(* kind 17 (TcpStream whose peer stays open): exactly one read of a stream that holds data - a read beyond what has
+   arrived would wait for ever; kind 18 (Stdout): a writer without an incoming stream *)
+Definition kind_shape_ok (kd : N) (content : list N) (ops : list (op13 * list fbeh)) : bool :=
+  match kd with
+  | 17 => match ops, content with [(ORead _, _)], _ :: _ => true | _, _ => false end
+  | 18 => forallb (fun x => match fst x with OWrite _ | OWriteAll _ => true | _ => false end) ops
+          && match content with [] => true | _ => false end
+  | _ => true
   end.
 Definition fbeh_of (n : N) : option fbeh :=
   match n with
@@ -156,7 +172,7 @@ Definition suite_C13fd (inp obs : list tok) : verdict :=
           if content_ok k content && (pos <? W64) && forallb (fun x => op_ok k (fst x)) ops
              && pos_sane k (nlen content) pos && forallb (fun x => op_sane k (fst x)) ops
              && forallb (route_ok route) ops && forallb script_sane ops
-             && (match k with KQueue => pos =? 0 | _ => true end) then
+             && (match k with KQueue => pos =? 0 | _ => true end) && kind_shape_ok kd content ops then
             let c := {| d_mode := if md =? 0 then Debug else Release; d_kind := k;
                         d_init := {| s_data := content; s_pos := pos; s_out := [] |}; d_ops := ops |} in
             {| v_model := enc13fd (run_C13fd route c);
